@@ -102,6 +102,33 @@ def names_leg(v, work):
     return len(out)
 
 
+INPUT_FIELD_NAMES = ["_eq", "_in", "firstName", "from", "schema", "model_config", "copy", "URLPath", "x1"]
+
+
+def input_names_leg(v, work):
+    """input FIELD names (the variable-name leg above covers the variables): leading underscores, camelCase, keywords,
+    pydantic attribute names, with snake-casing on and off"""
+    sdl = ("input W { _id: ID! " + " ".join(f"{n}: Int" for n in INPUT_FIELD_NAMES) + " }\ntype Query { f(w: W): Boolean }\n")
+    n = 0
+    for variant, opts in VARIANTS[1:]:
+        job = write_job(work.dir / f"inm_{variant}", schema=sdl, queries="query Q($w: W) { f(w: $w) }\n", package="gclient", options=opts)
+        r = generate(job)
+        feats = {"names_key": "input_fields", "variant": variant, "scope": "input_fields"}
+        if r["exc_class"]:
+            v.violation(feats, "gen_crash:" + r["exc_class"], {"message": r["exc_msg"]})
+            continue
+        try:
+            o = run_in_pkg(job, "harness.pkg.names_inputs", {"package": "gclient", "sdl": sdl, "names": INPUT_FIELD_NAMES, "required": "_id"})
+        except Machinery as ex:
+            v.violation(feats, "package_does_not_load", {"error": str(ex)[-300:]})
+            continue
+        n += 3
+        for pb in o["problems"]:
+            what = (pb.split(":")[1].strip().split(" ")[0] if ":" in pb else pb)
+            v.violation(feats, "input_field_names:" + what, {"problem": pb})
+    return n
+
+
 def run(tier, work, replay=None):
     v = Verdict("C03", tier)
     cases, res = vc.enumerate_cases(work, "Intended0")
@@ -128,6 +155,7 @@ def run(tier, work, replay=None):
                 owners.append((c, variant, rec))
     cases = all_cases
     n += names_leg(v, work)
+    n += input_names_leg(v, work)
     rs, rejected, inv = validate_traces_parallel("Variables_Trace", "Variables_Trace.cfg", traces, work.sub("tv"), chunk_size=600)
     for r in rs:
         v.add_tlc(r, "Variables_Trace")
